@@ -29,22 +29,38 @@ Qed.
 Lemma filter_flat_map {A B} (p : B -> bool) (h : A -> list B) l :
   filter p (flat_map h l) = flat_map (fun x => filter p (h x)) l.
 Proof. induction l as [|a l IH]; [reflexivity|]. cbn [flat_map]. now rewrite filter_app, IH. Qed.
-Lemma flat_map_pick {B} (x : Z) (G : list B) (h : Z -> list B) dm : NoDup dm -> In x dm ->
+Lemma flat_map_none {B} (x : Z) (h : Z -> list B) dm : ~ In x dm ->
+  flat_map (fun v => if (v =? x)%Z then h v else []) dm = [].
+Proof.
+  induction dm as [|b dm IH]; intros Hn; [reflexivity|]. cbn [flat_map].
+  destruct (Z.eqb_spec b x) as [->|_]; [exfalso; apply Hn; now left|]. cbn [app]. apply IH.
+  intros H. apply Hn. now right.
+Qed.
+Lemma flat_map_pick {B} (x : Z) (h : Z -> list B) dm : NoDup dm -> In x dm ->
   flat_map (fun v => if (v =? x)%Z then h v else []) dm = h x.
 Proof.
   induction dm as [|a dm IH]; intros ND Hin; [destruct Hin|]. inversion ND as [|? ? Hna ND']; subst.
   cbn [flat_map]. destruct (Z.eqb_spec a x) as [->|Hne].
-  - assert (E : flat_map (fun v => if (v =? x)%Z then h v else []) dm = []).
-    { clear IH ND ND'. induction dm as [|b dm IH]; [reflexivity|]. cbn [flat_map].
-      destruct (Z.eqb_spec b x) as [->|_]; [exfalso; apply Hna; now left|]. cbn [app]. apply IH.
-      intros H. apply Hna. now right. }
-    now rewrite E, app_nil_r.
+  - now rewrite flat_map_none, app_nil_r.
   - destruct Hin as [->|Hin]; [contradiction|]. cbn [app]. now apply IH.
 Qed.
 
 Lemma grid_length_cons dm doms : length (grid (dm :: doms)) = (length dm * length (grid doms))%nat.
 Proof.
   cbn [grid]. induction dm as [|x dm IH]; [reflexivity|]. cbn [flat_map length]. rewrite app_length, map_length, IH. lia.
+Qed.
+
+Lemma filter_cons_0 v x (G : list (list Z)) :
+  filter (at_ O x) (map (cons v) G) = if (v =? x)%Z then map (cons v) G else [].
+Proof.
+  induction G as [|row G IH]; [now destruct (v =? x)%Z|]. cbn [map filter]. rewrite IH. unfold at_. cbn [nth].
+  now destruct (v =? x)%Z.
+Qed.
+Lemma filter_cons_S k v x (G : list (list Z)) :
+  filter (at_ (S k) x) (map (cons v) G) = map (cons v) (filter (at_ k x) G).
+Proof.
+  induction G as [|row G IH]; [reflexivity|]. cbn [map filter]. rewrite IH. unfold at_. cbn [nth].
+  now destruct (nth k row 0%Z =? x)%Z.
 Qed.
 
 (* the rows of the grid whose k-th entry is x: the grid with the k-th domain replaced by [x] *)
@@ -54,13 +70,10 @@ Proof.
   induction doms as [|dm doms IH]; intros k x Hk ND Hin; [cbn in Hk; lia|]. destruct k as [|k].
   - cbn [nth] in ND, Hin. cbn [lrep grid flat_map]. rewrite app_nil_r, filter_flat_map.
     rewrite (flat_map_ext _ (fun v => if (v =? x)%Z then map (cons v) (grid doms) else [])).
-    + now apply (flat_map_pick x (grid doms)).
-    + intros v. generalize (grid doms) as G. induction G as [|row G IHG]; [now destruct (v =? x)%Z|].
-      cbn [map filter]. unfold at_ at 1. cbn [nth]. rewrite IHG. now destruct (v =? x)%Z.
+    + now apply (flat_map_pick x).
+    + intros v. apply filter_cons_0.
   - cbn [nth] in ND, Hin. cbn [lrep grid]. rewrite filter_flat_map. apply flat_map_ext. intros v.
-    rewrite <- (IH k x) by (auto; cbn in Hk; lia).
-    generalize (grid doms) as G. induction G as [|row G IHG]; [reflexivity|].
-    cbn [map filter]. unfold at_ at 1 3. cbn [nth]. destruct (nth k row 0%Z =? x)%Z; cbn [map]; now rewrite IHG.
+    rewrite <- (IH k x) by (auto; cbn in Hk; lia). apply filter_cons_S.
 Qed.
 
 Lemma filter_perm {A} (p : A -> bool) l l' : Permutation l l' -> Permutation (filter p l) (filter p l').
@@ -115,10 +128,10 @@ Lemma bsum_upd d k u (f : nat -> T) : (k < d)%nat ->
 Proof.
   intros Hk.
   rewrite (bsum_ext K d _ (fun j => f j + (if (j =? k)%nat then u - f k else 0))).
-  - rewrite (bsum_add K Rth). rewrite (bsum_single K Rth d k); auto.
+  - rewrite (bsum_add K Rth). rewrite (bsum_single K Rth d k (fun j => if (j =? k)%nat then u - f k else 0)); auto.
     + rewrite Nat.eqb_refl. ring.
     + intros i _ Hne. now destruct (Nat.eqb_spec i k).
-  - intros j _. destruct (j =? k)%nat; ring.
+  - intros j _. destruct (Nat.eqb_spec j k) as [->|_]; ring.
 Qed.
 
 Lemma addn_cons gs d x row : addn gs (S d) (x :: row) = gs O x + addn (fun k => gs (S k)) d row.
@@ -185,7 +198,8 @@ Proof.
   { assert (Hlen : length y = length (grid dom)) by (rewrite <- Ly; now apply Permutation_length).
     assert (Hg : grid dom <> []) by (apply grid_nonempty; intros k Hk; apply Hne; lia).
     rewrite Hlen in Hf0. unfold y in Hf0. rewrite (lsum_perm _ _ (Permutation_map _ HP)) in Hf0.
-    rewrite <- Ld in Hf0 at 1. rewrite (grid_sum dom c gs A HA), Ld in Hf0.
+    replace (addf c gs d) with (addf c gs (length dom)) in Hf0 by (now rewrite Ld).
+    rewrite (grid_sum dom c gs A HA), Ld in Hf0.
     destruct (length (grid dom)) as [|n] eqn:En; [destruct (grid dom); [congruence|discriminate]|].
     apply (nat_cancel _ _ n). rewrite Hf0. ring. }
   (* f1 *)
@@ -207,7 +221,8 @@ Proof.
     { intros j Hj. unfold dom', A'. rewrite lrep_nth by lia. destruct (Nat.eqb_spec j k) as [->|Hne'].
       - cbn [length map lsum]. rewrite natT_1. ring.
       - apply HA. rewrite Ld' in Hj. lia. }
-    rewrite <- Ld' in Hm at 2. rewrite (grid_sum dom' c gs A' HA'), Ld' in Hm.
+    replace (addf c gs d) with (addf c gs (length dom')) in Hm by (now rewrite Ld').
+    rewrite (grid_sum dom' c gs A' HA'), Ld' in Hm.
     assert (Hg : grid dom' <> []).
     { apply grid_nonempty. intros j Hj. unfold dom'. rewrite lrep_nth by lia.
       destruct (j =? k)%nat; [discriminate|]. apply Hne. rewrite Ld' in Hj. exact Hj. }
